@@ -87,11 +87,14 @@ claim("C10",
       "variable cells get exactly one bind() of their own reference kind at their own location, cells "
       "of the same kind fail exactly when an arity or name test fails (z3 over the tests as inputs), "
       "every other kind fails; Str x Str and Lis x Lis push positionally matching argument pairs "
-      "(z3 over 64-bit indices); unify_internal routes every tag to the kernel of that kind.",
+      "(z3 over 64-bit indices); unify_internal routes every tag to the kernel of that kind and a tabu "
+      "hit skips only the current pair; variables are bound through the unifier's own bind (the "
+      "occurs-check variants override it). K: stepping through a string met by a list "
+      "(last_str_char_and_tail) advances by the character's UTF-8 length.",
       "the worklist as a whole (termination, tabu list / rational trees), the occurs-check variants, "
       "attributed-variable wake-up and the 'binds nothing else' clause are outside; invariant "
       "assumed: no Str cell is './2'.",
-      M, "DESIGN.md §4 C10", engine="mirsmt")
+      M + " + " + K, "DESIGN.md §4 C10", engine="mirsmt+kani")
 claim("C11",
       "M: MachineState::trail pushes an entry of the cell's kind whenever the bound cell is "
       "older than the newest choice point (h < hb, h < b) - sufficiency, decided by z3 over all "
